@@ -108,6 +108,7 @@ pzgstrf_factor_snode(
 			  Glu, pxgstrf_shared->Gstat)) )
 	    if ( singular == 0 ) singular = *info;
 	
+	SLU_VERIF_EV("SnPivot", pnum, icol, pivrow, *info);
 	nextlu += nsupr;
 
 #if ( DEBUGlevel>= 2 )
